@@ -1,11 +1,13 @@
 #!/bin/sh
 # usage: seed_take.sh <round> <nn> ...   confirm delivered seeds, drop their worktrees, run the checks against them
+# (the checks run on the scratch worktree /tmp/swt of /repo HEAD, so /repo itself stays untouched)
 cd /verif
 R=$1; shift
 L=""
+[ -d /tmp/swt ] || git -C /repo worktree add --detach /tmp/swt HEAD -q
 for n in "$@"; do
   tools/seed_batch.sh $R $n 2>&1 | tail -1
   [ -d seeded/C$n-$R ] && L="$L C$n-$R"
-  git -C /repo worktree remove --force /tmp/wt${R}_c$n 2>/dev/null
+  [ -d seeded/C$n-$R ] && git -C /repo worktree remove --force /tmp/wt${R}_c$n 2>/dev/null
 done
-[ -n "$L" ] && /venv/bin/python tools/seed_eval.py check $L 2>&1 | grep -E "^C[0-9]+-$R"
+[ -n "$L" ] && SEED_REPO=/tmp/swt /venv/bin/python tools/seed_eval.py check $L 2>&1 | grep -E "^C[0-9]+-$R"
